@@ -78,3 +78,8 @@ Proof.
     + assert ((- s) / n <= - lo); [|lia]. apply Z.div_le_upper_bound; lia.
     + assert (- hi <= (- s) / n); [|lia]. apply Z.div_le_lower_bound; lia.
 Qed.
+
+(* the truncated mean of a step function lies between its smallest and largest value on the interval *)
+Lemma mean_between f a b lo hi : a < b -> (forall i, a <= i < b -> lo <= f i <= hi) ->
+  lo <= Z.quot (integral f a b) (b - a) <= hi.
+Proof. intros Hab H. apply quot_between; [lia|]. apply integral_bounds; [lia|assumption]. Qed.
